@@ -5,6 +5,9 @@ package main
 import (
 	"fmt"
 	"strings"
+
+	"github.com/z7zmey/php-parser/pkg/ast"
+	"github.com/z7zmey/php-parser/pkg/token"
 )
 
 func init() {
@@ -23,11 +26,66 @@ func formatted(src []byte, a, b uint64) (text string, structure string, reject s
 		site := "format-panic:" + firstFormatterFrame(p)
 		return "", structure, "", &Failure{Site: site, Kind: "input", Detail: "formatter panics: " + clip(p, 200)}
 	}
+	if where, what := survivingTrivia(po.Root); where != "" {
+		site := "source-trivia-survives" + constructTag(structure)
+		if constructTag(structure) == "" {
+			site += ":" + where
+		}
+		return "", structure, "", &Failure{Site: site, Kind: "input", Detail: "after formatting, " + where + " still carries " + what}
+	}
 	out, pan := printStr(po.Root)
 	if pan != "" {
 		return "", structure, "", &Failure{Site: "print-panic-after-format", Kind: "input", Detail: clip(pan, 200)}
 	}
 	return out, structure, "", nil
+}
+
+// survivingTrivia: the first token of a formatted tree whose free-floating list holds anything the
+// formatter does not make itself (blanks, one newline, indentation, "<?php ", the halt-compiler tail).
+// Covers on parsed trees what the coverage theorem of Props/Formatter.lean leaves to the companion tokens.
+func survivingTrivia(root ast.Vertex) (where, what string) {
+	canonical := func(f *token.Token) bool {
+		switch f.ID {
+		case token.T_HALT_COMPILER:
+			return true
+		case token.T_OPEN_TAG:
+			return string(f.Value) == "<?php "
+		case token.T_WHITESPACE:
+			v := string(f.Value)
+			return v == " " || v == "\n" || (len(v) > 0 && len(v)%4 == 0 && strings.Trim(v, " ") == "")
+		}
+		return false
+	}
+	walkTree(root, func(v ast.Vertex, _ int) {
+		if where != "" {
+			return
+		}
+		for _, f := range fieldsOf(v) {
+			var ts []*token.Token
+			switch f.Sort {
+			case 1:
+				if !f.Val.IsNil() {
+					ts = append(ts, f.Val.Interface().(*token.Token))
+				}
+			case 2:
+				for i := 0; i < f.Val.Len(); i++ {
+					if !f.Val.Index(i).IsNil() {
+						ts = append(ts, f.Val.Index(i).Interface().(*token.Token))
+					}
+				}
+			}
+			for _, t := range ts {
+				for _, ff := range t.FreeFloating {
+					if ff != nil && !canonical(ff) {
+						where = kindName(v) + "." + f.Name
+						what = fmt.Sprintf("%q (id %d)", clip(string(ff.Value), 40), int(ff.ID))
+						return
+					}
+				}
+			}
+		}
+	}, 0)
+	return
 }
 
 func firstFormatterFrame(p string) string {
